@@ -1,6 +1,7 @@
 import Zlink.Proofs.IdlIfaceRT
 import Zlink.Proofs.IdlLayoutIface
 import Zlink.Proofs.IdlSound
+import Zlink.Gen.Consts
 /-! # C13 — The IDL parser accepts exactly the Varlink grammar and builds the denoted tree
 
 Model: `Zlink/Model/Idl.lean` + `parseInterface` in `Zlink/Model/IdlRender.lean` — a function-by-function port of
@@ -73,6 +74,37 @@ theorem C13_layout {a : Iface} {core : In} (h : IfaceCoreL a core) (lead trail :
 /-- … and the same for type expressions alone: every layout of a type is read back by `varlink_type`. -/
 theorem C13_types_layout {t : Ty} {s : In} (ht : TyL t s) (z : In) (hz : stopTyG z) :
     varlinkType (tyFuel (s ++ z)) (s ++ z) = .ok t z := varlinkType_tyFuelL ht z hz
+
+/-- name of the `Type` variant a primitive type of the model stands for -/
+def primVariant : Ty → In
+  | .bool => [66, 111, 111, 108] | .int => [73, 110, 116] | .float => [70, 108, 111, 97, 116]
+  | .string => [83, 116, 114, 105, 110, 103] | .object => [70, 111, 114, 101, 105, 103, 110, 79, 98, 106, 101, 99, 116]
+  | _ => []
+
+/-- **The literals of the current source are the literals of the model** (tables regenerated from
+    `idl/parse/mod.rs` and the `Display` impls on every run): every primitive type name the parser
+    matches is read by the model as the same `Type` variant; the member keywords and the punctuation
+    are exactly the ones the model matches; each `Display` impl writes the keyword the model renders. -/
+theorem C13_literals :
+    Gen.idlPrimitives.all (fun p => match primitive (p.1 ++ [41]) with
+      | .ok t [41] => primVariant t == p.2
+      | _ => false) = true ∧
+    Gen.idlPrimitives.length = 5 ∧
+    Gen.idlKeywords = [[101, 114, 114, 111, 114], [105, 110, 116, 101, 114, 102, 97, 99, 101], [109, 101, 116, 104, 111, 100], [116, 121, 112, 101]] ∧
+    Gen.idlPunct = [[35], [40], [41], [44], [45, 62], [58], [63], [91, 93], [91, 115, 116, 114, 105, 110, 103, 93]] ∧
+    Gen.idlDisplayKeywords.map (·.2) = [[105, 110, 116, 101, 114, 102, 97, 99, 101, 32], [109, 101, 116, 104, 111, 100, 32],
+      [101, 114, 114, 111, 114, 32], [116, 121, 112, 101, 32], [116, 121, 112, 101, 32]] ∧
+    -- the model's parsers match exactly these keywords …
+    (match errorDef (([101, 114, 114, 111, 114] : In) ++ [32, 69, 40, 41]) with | .ok _ [] => true | _ => false) = true ∧
+    (match methodDef (([109, 101, 116, 104, 111, 100] : In) ++ [32, 77, 40, 41, 45, 62, 40, 41]) with | .ok _ [] => true | _ => false) = true ∧
+    (match typeDef (([116, 121, 112, 101] : In) ++ [32, 84, 40, 41]) with | .ok _ [] => true | _ => false) = true ∧
+    (match interfaceDef (([105, 110, 116, 101, 114, 102, 97, 99, 101] : In) ++ [32, 97, 46, 98]) with | .ok _ [] => true | _ => false) = true ∧
+    -- … and the model's renderer writes them
+    (([105, 110, 116, 101, 114, 102, 97, 99, 101, 32] : In).isPrefixOf (renderIface ⟨[97, 46, 98], [], [], [], []⟩) &&
+     ([109, 101, 116, 104, 111, 100, 32] : In).isPrefixOf (renderMethod ⟨[77], [], [], []⟩) &&
+     ([101, 114, 114, 111, 114, 32] : In).isPrefixOf (renderErr ⟨[69], [], []⟩) &&
+     ([116, 121, 112, 101, 32] : In).isPrefixOf (renderCT (.obj [84] [] []))) = true := by
+  decide +kernel
 
 /-- **Soundness of the interface-name lexer**: whatever it accepts is a word of
     `[A-Za-z]([-]*[A-Za-z0-9])*(\.[A-Za-z0-9]([-]*[A-Za-z0-9])*)+`. With `C13_interface_names_complete`
